@@ -316,7 +316,8 @@ def concatenate(
     """
 
     if not isinstance(files, list):
-        files = glob.glob(files)
+        # glob.glob lists the matches in directory-enumeration order, which depends on the file system
+        files = sorted(glob.glob(files))
 
     files = [str(Path(file).resolve()) for file in files if _is_raw(file)]
 
